@@ -1,5 +1,5 @@
 (* C17 — theorems (statements are the *_stmt definitions of Proofs.v / ProofsAlloc.v). *)
-From C17 Require Import Model Proofs.
+From C17 Require Import Model Proofs ProofsAlloc.
 
 Theorem Inv_init : Inv_init_stmt.
 Proof. exact Inv_init_proof. Qed.
@@ -28,3 +28,7 @@ Print Assumptions No_dangling_handle.
 Theorem No_leaked_block : No_leak_stmt.
 Proof. exact No_leak_proof. Qed.
 Print Assumptions No_leaked_block.
+
+Theorem Search_binary_smallest_class : Search_binary_stmt.
+Proof. exact Search_binary_proof. Qed.
+Print Assumptions Search_binary_smallest_class.
